@@ -5,10 +5,7 @@ use super::*;
 use crate::verif_isa::{havoc, m};
 use crate::verif_oracle::*;
 
-extern "C" {
-    /// nondeterministic table contents (never defined; see verif_pt.rs)
-    static mut VERIF_C20_TABLE: PageTable;
-}
+static mut VERIF_C20_TABLE: PageTable = PageTable::new();
 static mut STUB_ADDR: u64 = 0;
 static mut STUB_CALLS: u32 = 0;
 static mut STUB_ARG: u64 = 0;
@@ -23,13 +20,20 @@ fn stub_virt_new(addr: u64) -> VirtAddr {
 
 #[kani::proof]
 #[kani::stub(crate::addr::VirtAddr::new, stub_virt_new)]
-fn c20_new_accepts_exactly_recursive_and_active() {
+fn c20_new_accepts_exactly_recursive_and_active_nr() {
     let before = havoc();
     let a = any_canonical();
     unsafe { STUB_ADDR = a };
     let table = unsafe { &mut *core::ptr::addr_of_mut!(VERIF_C20_TABLE) };
     let table_ptr = table as *const PageTable as u64;
     let (i4, i3, i2, i1) = (field(a, 39, 9), field(a, 30, 9), field(a, 21, 9), field(a, 12, 9));
+    // arbitrary contents of the candidate slot and of its neighbours (the only slots `new` may consult)
+    unsafe {
+        let raw_table = table as *mut PageTable as *mut u64;
+        *raw_table.add(i4 as usize) = kani::any();
+        *raw_table.add(((i4 + 1) % 512) as usize) = kani::any();
+        *raw_table.add(((i4 + 511) % 512) as usize) = kani::any();
+    }
     let recursive_form = i3 == i4 && i2 == i4 && i1 == i4;
     let slot = table[i4 as usize].clone();
     let raw: u64 = unsafe { core::mem::transmute(slot) };
